@@ -49,7 +49,7 @@ static std::string as_cif_value(const sajson::value& val) {
       for (size_t i = 0; i < val.get_length(); ++i) {
         if (i != 0)
           s += ' ';
-        s += val.get_array_element(0).as_string();
+        s += val.get_array_element(i).as_string();
       }
       return quote(s);
     }
